@@ -42,7 +42,8 @@ PROP = dict(
           "scoped_fd under the close() fault: a close() call on an owned descriptor releases the descriptor and reports -1/EINTR (Linux frees the number before close can be interrupted), optionally with the "
           "number re-used at once by an unrelated descriptor (as another thread's open would); 'close exactly once' counts close() CALLS: the expected list of close() calls per operation is unchanged, no call may fail with EBADF, "
           "the unrelated descriptor must stay open; every sequence of length 2 (thorough: 3) over two objects x {every close call, the first, the second faulted} x {number free, re-used} is enumerated, a third of the random histories carry a fault mask."),
-    assumptions=["scoped_fd::open() that fails may release the previously owned descriptor at once (as in /repo) or keep owning it until a later close / destruction: either way it is closed exactly once",
+    assumptions=["dirname() of a path without a slash is outside the statement (counted); basename() of such a path is the path",
+                 "scoped_fd::open() that fails may release the previously owned descriptor at once (as in /repo) or keep owning it until a later close / destruction: either way it is closed exactly once",
                  "I/O errors are injected only as a read that fails with EINTR, EIO or EAGAIN and consumes nothing (subcheck read_fault) and as a close() that releases "
                  "its descriptor but reports EINTR (subcheck scoped_fd); the other subchecks inject short counts only",
                  "close() reporting EINTR has released the descriptor (Linux semantics; POSIX leaves it unspecified, HP-UX differs): a scoped_fd that calls close() again on that number is closing it twice",
